@@ -961,7 +961,7 @@ impl Scenario for AllocScenario {
     }
     fn runs(&self, tier: &str) -> u64 {
         if tier == "quick" {
-            60_000
+            200_000
         } else {
             4_000_000
         }
@@ -974,12 +974,12 @@ impl Scenario for AllocScenario {
         }
         let row = src.cfg("row", 0, OPS.len() as i64 - 1, |r| r.range(0, OPS.len() as i64 - 1)) as usize;
         let p = Params {
-            n: src.cfg("n", 1, 16, |r| r.range(1, 16)) as usize,
-            cap: src.cfg("cap", 1, 16, |r| r.range(1, 16)) as usize,
-            len: src.cfg("len", 0, 200, |r| r.range(0, 200)) as usize,
+            n: src.cfg("n", 1, 130, |r| if r.chance(1, 10) { *r.pick(&[31i64, 32, 33, 64, 65, 100, 128]) } else { r.range(1, 16) }) as usize,
+            cap: src.cfg("cap", 1, 130, |r| if r.chance(1, 10) { *r.pick(&[31i64, 32, 33, 64, 65, 100, 128]) } else { r.range(1, 16) }) as usize,
+            len: src.cfg("len", 0, 2000, |r| if r.chance(1, 20) { r.range(200, 2000) } else { r.range(0, 200) }) as usize,
         };
         let long = src.cfg("long", 0, 1, |r| r.chance(1, 10) as i64) == 1;
-        let steps = src.cfg("steps", 1, 400, |r| if long { r.range(300, 400) } else { r.range(20, 120) }) as usize;
+        let steps = src.cfg("steps", 1, 3000, |r| if long { r.range(300, 3000) } else { r.range(20, 120) }) as usize;
         if steps >= 300 {
             obs.probe(P_LONG_HISTORY);
         }
